@@ -176,7 +176,9 @@ type IntruderAgent struct {
 	DriftOnly bool // only edit managed fields / delete / block (no ownership changes, no foreign fields)
 	// PhaseObjects lets the intruder delete delegated phase objects (ObjectSetPhases) as well.
 	PhaseObjects bool
-	Targets   []intruderTarget
+	// Slices lets the intruder delete ObjectSlices.
+	Slices  bool
+	Targets []intruderTarget
 }
 
 type intruderTarget struct {
@@ -253,6 +255,22 @@ func (a *IntruderAgent) act(w *World) {
 			}
 			w.Stats.Probe("intruder-delete-phase-object")
 			w.Tracef("INTRUDER delete phase object %s", k)
+			_ = w.TP("intruder", w.Mgmt).Delete(k, "Background")
+			return
+		}
+	}
+	if a.Slices && w.Sch.Intn(8, "intruder-slice") == 0 {
+		// somebody deletes an ObjectSlice an ObjectSet references
+		var cands []store.Key
+		for _, k := range sortedKeys(w.Mgmt.Objs) {
+			if k.Group == PKOGroup && isSliceKind(k.Kind) {
+				cands = append(cands, k)
+			}
+		}
+		if len(cands) > 0 {
+			k := cands[w.Sch.Intn(len(cands), "intruder-slice-target")]
+			w.Stats.Probe("intruder-delete-slice")
+			w.Tracef("INTRUDER delete slice %s", k)
 			_ = w.TP("intruder", w.Mgmt).Delete(k, "Background")
 			return
 		}
